@@ -91,7 +91,7 @@ func (p *c17Prog) end(i int) int { return p.r.Toks[i].Off + len(p.r.Toks[i].Text
 // runOK reports whether tokens i..j can be folded into an alias value.
 func (p *c17Prog) runOK(i, j int) bool {
 	t := p.r.Toks
-	if !t[i].CmdPos || !plainWord(t[i].Text) || t[j].Glue || strings.HasSuffix(t[j].Text, " ") || strings.HasSuffix(t[j].Text, "\t") {
+	if !t[i].CmdStart || t[j].Glue || strings.HasSuffix(t[j].Text, " ") || strings.HasSuffix(t[j].Text, "\t") {
 		// (a value ending in an escaped blank: whether that "ends in a blank" is a gray zone)
 		return false
 	}
@@ -207,9 +207,18 @@ func c17Build(p *c17Prog, r *rand.Rand, variant int) (c17Case, bool) {
 	if len(starts) == 0 {
 		return c17Case{}, false
 	}
+	var foldStarts []int
+	for i := range t {
+		if t[i].CmdStart {
+			foldStarts = append(foldStarts, i)
+		}
+	}
 	pickRun := func() (int, int, bool) {
 		for try := 0; try < 8; try++ {
-			i := starts[r.IntN(len(starts))]
+			i := foldStarts[r.IntN(len(foldStarts))]
+			if variant == 3 {
+				i = starts[r.IntN(len(starts))]
+			}
 			j := i + r.IntN(8)
 			if j >= len(t) {
 				j = len(t) - 1
